@@ -31,3 +31,14 @@ package types
 //@ loop 0 decreases nodes - i
 //@ modifies nothing
 //@ nopanic
+
+// ---- C20: genesis validation establishes the safe parameter bounds ----------
+// DustTxoutAmount = 1000, MaxTaxBP = 10000 (100 %).
+
+//@ func (Params).Validate
+//@ property C20 C18
+//@ ensures inv20: err == nil ==> p.DepositTaxRate < MaxTaxBP && p.MinDepositAmount >= DustTxoutAmount && p.ConfirmationNumber >= 1
+//@ ensures magic_len: err == nil ==> len(p.DepositMagicPrefix) == DepositMagicLen
+//@ replay-assume p.NetworkName == "regtest"
+//@ modifies nothing
+//@ nopanic
